@@ -105,6 +105,11 @@ def update_param_state_dict_object(
 ) -> None:
     for k, v in current_param_state_dict.items():
         if k not in param_state_dict_to_load:
+            # An entry that does not contain any tensor (e.g., the Kronecker factors of a block
+            # without preconditioned dimensions) is dropped by flatten() when the state is saved,
+            # so there is nothing to load for it.
+            if not flatten(extract_state_dict_content({k: v})):
+                continue
             if enable_missing_key_check:
                 raise KeyError(f"Key {k} not found in state dict to load.")
             else:
